@@ -107,24 +107,11 @@ def op_case(ctx: Ctx, stream: str, i: int) -> None:
     elif stream == 'toeplitz':
         # every small (length, number of bands, method, transform size, band batch) combination: data shorter than the
         # kernel, a single band, explicit minimal / odd / default transform sizes, one band row per detector
-        from furax.operators.toeplitz import SymmetricBandToeplitzOperator
-        n = 1 + i % 9
-        K = 1 + (i // 9) % 5
-        method, fft = [('overlap_save', None), ('overlap_save', 'min'), ('dense', None), ('direct', None), ('fft', None),
-                       ('overlap_save', 'odd'), ('overlap_save', None)][(i // 45 + i) % 7]
-        batch = rng.choice([(), (), (2,), (1,)])
-        dt = rng.choice([jnp.float32, jnp.float32, jnp.float64 if jax.config.jax_enable_x64 else jnp.float32])
-        band = np.array([rng.choice([4.0, 1.0, -1.0, 0.5, 2.0]) for _ in range(int(np.prod(batch + (K,))))]).reshape(batch + (K,))
-        kw = {}
-        if fft == 'min':
-            kw['fft_size'] = 2 * K - 1
-        elif fft == 'odd':
-            kw['fft_size'] = 2 * K - 1 + rng.choice([2, 4, 1, 3])
-        s = jax.ShapeDtypeStruct(((2,) if batch else rng.choice([(), (3,)])) + (n,), dt)
-        op = SymmetricBandToeplitzOperator(jnp.asarray(band, dtype=dt), s, method=method, **kw)
+        op, label = gen.toeplitz_grid(i, rng)
+        s = op.in_structure()
         if rng.random() < 0.3:
             op = op @ gen.mk_identity(rng, s) if rng.random() < 0.5 else 2.0 * op
-        ctx.count(f'toeplitz:{method}:{fft}')
+        ctx.count('toeplitz:' + label)
     elif stream == 'inverse':
         # a lazy inverse (iterative solve needing several steps), alone or inside a composition
         s = gen.S(rng.choice([5, 6, 8]))
